@@ -18,7 +18,8 @@ of the grammar, with and without user, port, reference and sub-directory), throu
 `giturl_inverse_full`.
 The full statement is `dep_roundtrip_full_statement`.  NOT proved of it: (1) URL dependencies with a sub-directory
 fragment and wheel URLs; git locations outside the restricted grammar;
-(2) constraints the printer spells with a wildcard (`==X.*`, `!=X.*`) or as a disjunction; (3) dependencies that are
+(2) constraints printed as a disjunction (they do not round-trip at all: `disjunction_not_reparsable`; outside the
+property's domain) — wildcard spellings `==X.*` / `!=X.*` are covered by `dep_roundtrip_registry_wildcard`; (3) dependencies that are
 members of an extra (`in_extras ≠ []`: the `extra == …` clause `to_pep_508` appends); (4) markers outside C13's domain
 (`in` / `not in`, `~=`, `platform_release`); (5) one side condition on the printed text kept as a hypothesis: no ` #` in it
 (`NoComment`; FALSE without it: the known finding `marker-literal-with-blank-hash-cut-as-comment`); that the marker
@@ -31,6 +32,7 @@ import PoetryVerif.Proofs.DepConstraint
 import PoetryVerif.Proofs.DepMarker
 import PoetryVerif.Proofs.DepUrl
 import PoetryVerif.Proofs.DepVcs
+import PoetryVerif.Proofs.DepWildcard
 import PoetryVerif.Proofs.VRangeTextP
 
 set_option linter.unusedSimpArgs false
@@ -321,6 +323,55 @@ theorem dep_roundtrip_registry_ne (d : Dep) (rs : List RC) (v : Version) (h : Re
   intro p hp hreg
   rw [← b5, hc]
   exact heqv p hp hreg
+
+/-- **round trip of a registry dependency whose constraint the printer spells with a wildcard** — `==X.*` for any range
+`[mn, mx)` that `_is_wildcard_candidate` accepts (algebra-produced ones included, lower end not a post-release), `!=X.*`
+for the two-member union `<A || >=B` it accepts: the text is `name[extras] (==X.*)` resp. `(!=X.*)`, and the re-parsed
+dependency has the same name, extras, kind and source and a constraint that admits EXACTLY the same versions, on every
+well-formed version (C15 `wildcard_spelt_roundtrip` / `wildcard_spelt_union_roundtrip`) -/
+theorem dep_roundtrip_registry_wildcard (d : Dep) (h : RegWF d)
+    (hcls : (∃ mn mx, d.constraint = .single (.rng ⟨some mn, some mx, true, false⟩) ∧
+              (⟨some mn, some mx, true, false⟩ : VRange).WF ∧ isWildcardCandidate mn mx false = true ∧
+              mn.isPostrelease = false) ∨
+            (∃ omax tmin, d.constraint = .union [.rng ⟨none, some omax, false, false⟩, .rng ⟨some tmin, none, true, false⟩] ∧
+              omax.wf = true ∧ tmin.wf = true ∧ vk omax < vk tmin ∧
+              isWildcardCandidate tmin omax true = true ∧ omax.isPostrelease = false))
+    (hany : d.marker.isAny = true) (hpy : d.pythonVersions = "*")
+    (hnc : ∀ t, d.toPep508 = .ok t → NoComment t.toList) :
+    ∃ t, d.toPep508 = .ok t ∧ ∀ d', createFromPep508 t = .ok d' →
+      d'.name = d.name ∧ d'.extras = d.extras ∧ d'.kind = Kind.textual d.kind ∧ sameSource d' d ∧ d'.marker = .any ∧
+      ∀ p, p.wf = true → d'.constraint.allows p = d.constraint.allows p := by
+  have key : ∃ ts c', CBody d ts ∧ VParser.parseConstraint (ctextOf ts) = .ok c' ∧
+      ∀ p, p.wf = true → c'.allows p = d.constraint.allows p := by
+    rcases hcls with ⟨mn, mx, hc, hwf, hw, hnp⟩ | ⟨omax, tmin, hc, ho, ht, hlt, hw, hnp⟩
+    · exact cbody_wild_eq d mn mx hc hwf hw hnp
+    · exact cbody_wild_ne d omax tmin hc ho ht hlt hw hnp
+  obtain ⟨ts, c', hcb, hparse, heqv⟩ := key
+  obtain ⟨t, htp, hr⟩ := registry_print_reparse_nomarker d ts h hcb hany hpy hnc
+  refine ⟨t, htp, ?_⟩
+  intro d' hd'
+  obtain ⟨b1, b2, b3, b4, b5, b6⟩ := dep_roundtrip_registry_core d ts none t d' h hr hd'
+  rw [hparse] at b5
+  injection b5 with b5
+  exact ⟨b1, b2, b3, b4, b6, fun p hp => by rw [← b5]; exact heqv p hp⟩
+
+/-- non-vacuity: `>=1.dev0,<2` (printed `==1.*`) meets the first class -/
+example : let mn := Version.mk' 0 [1] none none (some ⟨.dev, 0⟩) none
+    let mx := Version.mk' 0 [2] none none none none
+    (⟨some mn, some mx, true, false⟩ : VRange).WF ∧ isWildcardCandidate mn mx false = true ∧ mn.isPostrelease = false := by
+  intro mn mx
+  refine ⟨⟨by unfold VRange.wfB; decide +kernel, ?_⟩, by decide, by decide⟩
+  intro m M hm hM
+  simp at hm hM; subst hm; subst hM
+  decide +kernel
+
+/-- **a constraint printed as a disjunction does NOT round-trip** (outside the property's domain of conjunction
+constraints; PEP 508 has no `||`): `to_pep_508` writes `foo (<1 || >2)`, which neither the reference nor poetry-core's
+own requirement grammar accepts — replayed on the real code: `InvalidRequirementError` -/
+theorem disjunction_not_reparsable :
+    ((mkRegistryStr "foo" "<1 || >2" []).bind (fun d => d.toPep508)).toOption = some "foo (<1 || >2)" ∧
+    (createFromPep508 "foo (<1 || >2)").toOption = none ∧ parseRaw "foo (<1 || >2)".toList = none := by
+  refine ⟨by decide +kernel, by decide +kernel, by decide +kernel⟩
 
 /-- the marker text as printed neither starts with a blank nor ends with white space -/
 def MarkerEnds (m : M) : Prop :=
